@@ -92,6 +92,21 @@ CONFIG = {
             "a CID absent from the listing counts as unpinned",
         ],
     },
+    "C12": {
+        "pkg": "c12",
+        "regress": "^TestRegress",
+        "legs": [
+            {"run": "^TestHijacked$", "quick": (400, 8), "thorough": (15000, 16)},
+            {"run": "^TestRelayed$", "quick": (800, 4), "thorough": (30000, 8)},
+        ],
+        "floors": {"hijacked": {"nontrivial": 1500, "route:add": 300, "route:pin/update": 150, "error-answer": 500}, "relayed": {"nontrivial": 200}},
+        "assumptions": [
+            "the proxy's own OPTIONS (CORS) and header-extraction (POST /api/v0/version) requests to the daemon are not 'the call being replaced'",
+            "paths with more than one segment after a hijacked route (/api/v0/pin/add/x/y) are not hijacked by the route table and must be relayed unchanged",
+            "sha2-512 with CID version 0 is an invalid add request",
+            "cluster, consensus and connector are recording RPC fakes behind the proxy; with a nil host every member's RepoStat is answered locally",
+        ],
+    },
     "C14": {
         "pkg": "c14",
         "regress": "^TestRegress",
